@@ -33,12 +33,17 @@ def classify(cfg, f):
     if f["kind"] == "exception":
         if re.match(r"NameError: name '(Q\d|q\d)' is not defined", f["msg"]):
             return "F1"
-        return None
+        if "inserted into a fiber of shape" not in f["msg"]:
+            return None
+        # the shape-aware reference model refuses a coordinate beyond the declared extent: same defect class as an
+        # out-of-extent element found after the run
+    if not m and tag.startswith("F2d/U") and f["kind"] in ("out-of-extent", "exception", "wrong-value"):
+        return "F3"
     if not m:
         return None
     a, b, st = int(m.group(1)), int(m.group(2)), m.group(3)
     nlev = 0 if st == "none" else st.count("+") + 1
-    if f["kind"] in ("wrong-value", "out-of-extent"):
+    if f["kind"] in ("wrong-value", "out-of-extent", "exception"):
         if 3 in (abs(a), abs(b)):
             return "F11"
         if nlev >= 2:
